@@ -112,7 +112,7 @@ def gen_history(rngs, n_ops, fault_rate=0.3, fault_classes=None, io_ops=True, si
         if not ran and (c < 0.6 or i == 0):
             op = {'op': 'run'}
             if r.random() < 0.5:
-                op['inputs'] = [r.choice(['1', '22', 'abc', '', ' spaced ']) for _ in range(r.randint(0, 3))]
+                op['inputs'] = [r.choice(['1', '22', 'abc', '', ' spaced ', 'caf\xe9', 'tab\tin', 'x' * 120]) for _ in range(r.randint(0, 3))]
             ran = True
         elif c < 0.12:
             op = {'op': 'run'}
